@@ -943,9 +943,10 @@ class HistogramBase(abc.ABC):
             else:
                 adapted_self = self + 0 * other
                 adapted_other = 0 * self + other
+                self._coerce_dtype(other.dtype)
                 self.frequencies = adapted_self.frequencies - adapted_other.frequencies
                 self.errors2 = adapted_self.errors2 + adapted_other.errors2
-                self._missed -= other._missed
+                self._missed = self._missed - other._missed
             self._stats = INVALID_STATISTICS
             return self
         array = np.asarray(other)
